@@ -53,6 +53,7 @@ type action struct {
 }
 
 type runner struct {
+	node    *fakeNode
 	w       *world
 	sc      scenario
 	apps    []*appState
@@ -330,11 +331,13 @@ func (r *runner) allDone() bool {
 	return true
 }
 
-// run executes one schedule; choose(n) picks among n enabled actions (n >= 2).
-func runSchedule(sc scenario, choose func(n int) int) string {
+// setup builds the world, fakes and runner threads of a scenario and waits until every runner
+// thread sits at its first interface point.
+func setup(sc scenario, dir *directed) (*runner, string) {
 	w := newWorld()
+	w.dir = dir
 	n := &fakeNode{w: w}
-	r := &runner{w: w, sc: sc}
+	r := &runner{w: w, sc: sc, node: n}
 	var cfg []string
 	for _, x := range sc.txs {
 		d := &descriptor.Message{Name: fmt.Sprintf("Tx%d", x.tid), ID: uint32(x.tid), SendType: descriptor.SendTypeEvent}
@@ -378,6 +381,12 @@ func runSchedule(sc scenario, choose func(n int) int) string {
 	for _, t := range r.threads {
 		r.waitEvt(t, curTimeout())
 	}
+	return r, strings.Join(cfg, ",")
+}
+
+// complete runs the schedule to its end; choose(n) picks among n enabled actions (n >= 2).
+func (r *runner) complete(choose func(n int) int) {
+	w := r.w
 	idle := 0
 	for step := 0; ; step++ {
 		if r.allDone() {
@@ -428,10 +437,14 @@ func runSchedule(sc scenario, choose func(n int) int) string {
 		}
 		r.exec(acts[i])
 	}
+}
+
+func (r *runner) line(name, cfg string) string {
+	w := r.w
 	// let blocked goroutines of this world go (they stay blocked only after DEADLOCK / HANG)
 	w.cancel()
 	w.mu.Lock()
-	line := "TR " + sc.name + " " + strings.Join(cfg, ",") + " " + strings.Join(w.log, " ")
+	line := "TR " + name + " " + cfg + " " + strings.Join(w.log, " ")
 	w.mu.Unlock()
 	if r.marker != "" {
 		line += " " + r.marker
@@ -439,6 +452,13 @@ func runSchedule(sc scenario, choose func(n int) int) string {
 		noteTimeout()
 	}
 	return line
+}
+
+// runSchedule executes one schedule of a scenario.
+func runSchedule(sc scenario, choose func(n int) int) string {
+	r, cfg := setup(sc, nil)
+	r.complete(choose)
+	return r.line(sc.name, cfg)
 }
 
 // ---------------------------------------------------------------- scenarios
